@@ -26,9 +26,11 @@ CHECKS = {
          "the statement unconditionally (every satisfying grounding, satisfiability, boundedness) for constraint-free "
          "schemas and C03_sub_sound extends it to schemas with subtype constraints x <= A / x < A and C03_elim_sound to elimination constraints over base-type alternatives, "
          "including 'every resolved constraint holds' (attachment invariant through bind's set merging, re-check rounds "
-         "nested through fulfill -> below -> check_constraints); elimination alternatives that are compound or mention "
-         "variables remain per-instance (verified checker) - partial",
-         "4 C03", "Coq-verified per-instance checker + engine model correspondence (universal soundness partial)"),
+         "nested through fulfill -> below -> check_constraints); C03_gen_sound/_bounded/_extend/_satisfiable prove the "
+         "main clause (witnessing instantiation for every accepted application, any type within the reported bounds, "
+         "bounded variables never compound) for ARBITRARY constraints; only 'every resolved constraint holds' for "
+         "compound or variable alternatives remains per-instance (verified checker)",
+         "4 C03", "Coq proof (soundness of the engine model for arbitrary constraints) + verified per-instance checker + engine model correspondence"),
  "C05": ("on the faithful engine model: lub / permutation invariance / monotonicity proved for every hierarchy and "
          "any number of chain arguments (identity and nested covariant contexts, Top/Bottom included), glb for the "
          "contravariant reading, and C05_*_octx for ARBITRARY one-hole contexts of any arity, variance and depth with "
